@@ -88,6 +88,12 @@ def collect():
     d('clientLockAssignments', 'Nat', str(ci['assignments']))
     d('clientLockAssignedIn', 'String', lean_str(ci['where']))
     d('clientLockReferences', 'Nat', str(ci['references']))
+    # C15: OBSERVED, not read off the syntax: a real retrying client whose first transmission gets no answer, with the
+    # locks instrumented at birth — is a lock given up between the two transmissions (during the back-off)?
+    bo = backoff_observation()
+    d('backoffObserved', 'Bool', 'true' if bo['observed'] else 'false')
+    d('backoffClientLockReleases', 'Nat', str(bo['client']))
+    d('backoffManagerLockReleases', 'Nat', str(bo['manager']))
 
     # C09/C10/C12/C17: the structure of the seven server front-ends, read off the source by ast
     d('serverStructure', 'List (String × Bool × String × Bool × Bool × Bool × Bool)',
@@ -558,6 +564,18 @@ def client_lock_info(path=None):
                             scope = 'none'
                     out['scope'] = scope
     return out
+
+
+def backoff_observation():
+    """runs harness.c15.observe_backoff() (real client, in-memory transport) and puts the real modules back"""
+    try:
+        from harness import c15
+        try:
+            return c15.observe_backoff()
+        finally:
+            c15.uninstall_shims()
+    except Exception as e:  # noqa: the observation could not be made: the obligation stays open
+        return dict(observed=False, client=0, manager=0, error='%s: %s' % (type(e).__name__, e))
 
 
 def render():
